@@ -230,7 +230,7 @@ def sampling(tier, rng, rep):
             rep.fail("sym_index_onto", f"n={n}", {"n": n}); return
         if n <= 5:
             incl, proj = rp_mod.symmetric_inclusion(n), rp_mod.symmetric_projection(n)
-            if np.max(np.abs(proj @ incl - np.eye(n * (n + 1) // 2))) > 1e-12:
+            if not np.all(np.abs(proj @ incl - np.eye(n * (n + 1) // 2)) <= 1e-12):
                 rep.fail("projection_after_inclusion_is_identity", f"n={n}", {"n": n}); return
         rep.case(key=("idx", n))
     for t in range(N):
@@ -266,25 +266,25 @@ def sampling(tier, rng, rep):
                     want = want @ mats[ch]
                 got = np.asarray(r[w], dtype=complex)
                 scale = max(1.0, np.max(np.abs(want)))
-                if got.shape != (n, n) or np.max(np.abs(got - want)) > 1e-7 * scale * max(1, len(w)) ** 2:
+                if got.shape != (n, n) or not np.all(np.abs(got - want) <= 1e-7 * scale * max(1, len(w)) ** 2):
                     rep.fail("word_image_is_product", f"word {w!r}", {**inp, "word": w}); return
                 red = W.simplify_word(w)
-                if np.max(np.abs(np.asarray(r[red], dtype=complex) - got)) > 1e-6 * scale * max(1, len(w)) ** 2:
+                if not np.all(np.abs(np.asarray(r[red], dtype=complex) - got) <= 1e-6 * scale * max(1, len(w)) ** 2):
                     rep.fail("free_reduction_keeps_image", f"{w!r} -> {red!r}", {**inp, "word": w}); return
             batch = np.asarray(r.elements(ws[:5]), dtype=complex)
             for i_, w in enumerate(ws[:5]):
-                if np.max(np.abs(batch[i_] - np.asarray(r[w], dtype=complex))) > 1e-9 * max(1.0, np.max(np.abs(batch[i_]))):
+                if not np.all(np.abs(batch[i_] - np.asarray(r[w], dtype=complex)) <= 1e-9 * max(1.0, np.max(np.abs(batch[i_])))):
                     rep.fail("elements_agrees_with_indexing", f"{w!r}", {**inp, "word": w}); return
             # change of dtype
             tgt = 'complex128' if kind != "complex" else 'complex128'
             r2 = r.astype(tgt)
             for w in ws[:8]:
-                if np.max(np.abs(np.asarray(r2[w]) - np.asarray(r[w], dtype=complex))) > 1e-9 * max(1.0, np.max(np.abs(np.asarray(r[w], dtype=complex)))):
+                if not np.all(np.abs(np.asarray(r2[w]) - np.asarray(r[w], dtype=complex)) <= 1e-9 * max(1.0, np.max(np.abs(np.asarray(r[w], dtype=complex))))):
                     rep.fail("astype_commutes_with_evaluation", f"{w!r}", {**inp, "word": w}); return
             if kind == "integer":
                 r3 = r.astype('float64')
                 for w in ws[:8]:
-                    if np.max(np.abs(np.asarray(r3[w]) - np.asarray(r[w], dtype=float))) > 1e-9 * max(1.0, np.max(np.abs(np.asarray(r[w], dtype=float)))):
+                    if not np.all(np.abs(np.asarray(r3[w]) - np.asarray(r[w], dtype=float)) <= 1e-9 * max(1.0, np.max(np.abs(np.asarray(r[w], dtype=float))))):
                         rep.fail("astype_commutes_with_evaluation", f"int->float {w!r}", {**inp, "word": w}); return
             # Fox formula with generators assigned in this (possibly non-alphabetical) order
             if k <= 3 and n <= 3 and kind != "integer":
@@ -292,7 +292,7 @@ def sampling(tier, rng, rep):
                 for w in ws[1:12]:
                     if w:
                         dlt = r.differential(w) @ cob - (np.eye(n) - np.asarray(r[w]))
-                        if np.max(np.abs(dlt)) > 1e-6 * max(1.0, np.max(np.abs(np.asarray(r[w])))) * len(w) ** 2:
+                        if not np.all(np.abs(dlt) <= 1e-6 * max(1.0, np.max(np.abs(np.asarray(r[w])))) * len(w) ** 2):
                             rep.fail("fox_fundamental_formula", f"{w!r}", {**inp, "word": w}); return
         rep.attempt("representation_runs", inp, body)
         rep.case(key=(t,), nontrivial=k >= 2, sample={k_: inp[k_] for k_ in ("n", "kind", "assignment_order")} if t == 0 else None)
